@@ -183,6 +183,33 @@ func retryOracles(run *retryRun, cfg string, modelSettled, stuck, havePlan bool,
 		}
 		started, acked := map[string]int{}, map[string]int{}
 		last, lastKey := -1, ""
+		// connections on which the library may run a re-subscription pass (not the first accepted one; session lost or
+		// AlwaysResubscribe): there a single-filter SUBSCRIBE f.q may be the library's own re-subscription of an
+		// established filter rather than the application's request with the same content
+		resubConn, tainted := map[int]bool{}, map[string]bool{}
+		firstAccepted := true
+		for _, c := range s.conns {
+			if !c.accepted {
+				continue
+			}
+			if !firstAccepted && (!c.sessionPresent || cfg[3] == '1') {
+				resubConn[c.k] = true
+			}
+			firstAccepted = false
+		}
+		establishedByOther := func(part string, idx int, at time.Time) bool {
+			for j, a := range run.accepted {
+				if j == idx || !strings.HasPrefix(a, "s") || run.acceptedT[j].After(at) {
+					continue
+				}
+				for _, p := range strings.Split(a[1:], ";") {
+					if p == part {
+						return true
+					}
+				}
+			}
+			return false
+		}
 		for _, e := range s.wire {
 			key, final := "", false
 			switch e.pkt.Type {
@@ -202,6 +229,18 @@ func retryOracles(run *retryRun, cfg string, modelSettled, stuck, havePlan bool,
 					parts = append(parts, fmt.Sprintf("%s.%d", hexOrDash([]byte(f)), e.pkt.QoSs[i]))
 				}
 				key, final = "s"+strings.Join(parts, ";"), true
+				if len(parts) == 1 && resubConn[e.conn] {
+					cand := -1
+					if started[key] < len(occ[key]) {
+						cand = occ[key][started[key]]
+					}
+					if establishedByOther(parts[0], cand, e.at) {
+						tainted[key] = true // ambiguous: no claim about this request content for the rest of the run
+					}
+				}
+				if tainted[key] {
+					continue
+				}
 			case 0xa0:
 				var parts []string
 				for _, f := range e.pkt.Filters {
@@ -500,9 +539,9 @@ func retryOracles(run *retryRun, cfg string, modelSettled, stuck, havePlan bool,
 			if j+1 >= len(s.dialAt) {
 				break
 			}
-			want := retryBase << uint(exp)
-			if want > retryMax {
-				want = retryMax
+			want := run.base << uint(exp)
+			if want > run.max {
+				want = run.max
 			}
 			gap := s.dialAt[j+1].Sub(s.failAt[j])
 			if gap < want {
@@ -520,6 +559,21 @@ func retryOracles(run *retryRun, cfg string, modelSettled, stuck, havePlan bool,
 					v = append(v, viol("C09", "no-redial", "the client did not dial again although the connection attempt had ended or should have timed out: %s", run.planMiss[0]))
 				}
 			}
+		}
+	}
+	// "after Disconnect (or cancellation before the first connection succeeded) it never dials again": a dial
+	// request that STARTS after the call took effect (one that was in flight may complete)
+	for j, t := range s.dialAt {
+		if !run.discAt.IsZero() && t.After(run.discAt) {
+			v = append(v, viol("C09", "dial-after-disconnect", "dial %d started %v after Disconnect had taken effect", j, t.Sub(run.discAt)))
+		}
+		if !run.cancelAt.IsZero() && t.After(run.cancelAt) {
+			v = append(v, viol("C09", "dial-after-cancel", "dial %d started %v after the context of the first Connect was cancelled", j, t.Sub(run.cancelAt)))
+		}
+	}
+	for _, pm := range run.planMiss {
+		if strings.HasPrefix(pm, "cancel:connect-did-not-return") {
+			v = append(v, viol("C09", "connect-did-not-return", "ReconnectClient.Connect did not return after its context was cancelled: %s", pm))
 		}
 	}
 	if disconnected && len(run.planMiss) > 0 {
